@@ -15,23 +15,33 @@ UNARY = {'Full', 'Matricize', 'Elements', 'Norm2', 'Copy', 'Conj', 'SMul', 'Tran
 
 
 def runs(tier):
-    D = 3 if tier == 'quick' else 4
-    R = {1, 2} if tier == 'quick' else {1, 2, 3}
-    base = dict(MaxD=D, DimsR={1, 2}, DimsC={1, 2}, RanksS=R, Seeds={1}, MaxDepth=1, EmitAll=False, Vias={'matmul'}, QL=1, MaxDB=1, OWs={False, True}, Lean=False, IslLevel=0)
+    q = tier == 'quick'
+    R = {1, 2} if q else {1, 2, 3}
+    base = dict(MaxD=3, DimsR={1, 2}, DimsC={1, 2}, RanksS=R, Seeds={1}, MaxDepth=1, EmitAll=False, Vias={'matmul'}, QL=1, MaxDB=1, OWs={False, True}, Lean=False, IslLevel=0)
     out = []
     out.append(dict(name='unary', constants=dict(base, Scenarios={'single'}, Ops=UNARY,
                                                  KindPairs={('real', 'real'), ('complex', 'complex')})))
-    out.append(dict(name='binary', constants=dict(base, Scenarios={'same'}, Ops={'Add', 'Sub'},
+    out.append(dict(name='binary', constants=dict(base, Scenarios={'same'}, Ops={'Add', 'Sub'}, RanksS={1, 2},
                                                   KindPairs={('real', 'real'), ('complex', 'real')})))
-    out.append(dict(name='mmr', constants=dict(base, Scenarios={'chain'}, Ops={'MatMul'}, KindPairs={('real', 'real')})))
-    out.append(dict(name='mmc', constants=dict(base, Scenarios={'chain'}, Ops={'MatMul'}, Vias={'dot'},
+    out.append(dict(name='mmr', constants=dict(base, Scenarios={'chain'}, Ops={'MatMul'}, RanksS={1, 2}, KindPairs={('real', 'real')})))
+    out.append(dict(name='mmc', constants=dict(base, Scenarios={'chain'}, Ops={'MatMul'}, RanksS={1, 2}, Vias={'dot'},
                                                KindPairs={('complex', 'complex')})))
     out.append(dict(name='norm1', constants=dict(base, Scenarios={'single'}, Ops={'Norm1', 'Norm2'}, KindPairs={('pos', 'pos')},
                                                  Seeds={1, 2})))
-    out.append(dict(name='lin', constants=dict(base, MaxD=min(D, 3), Scenarios={'lin'}, Ops={'Residual'},
+    out.append(dict(name='lin', constants=dict(base, RanksS={1, 2}, Scenarios={'lin'}, Ops={'Residual'},
                                                KindPairs={('real', 'real'), ('complex', 'complex')})))
-    out.append(dict(name='ctor', nshards=1, constants=dict(base, MaxD=min(D, 3), Scenarios={'ctor'}, KindPairs={('real', 'real')},
+    out.append(dict(name='ctor', nshards=1, constants=dict(base, Scenarios={'ctor'}, KindPairs={('real', 'real')},
                                                 Ops={'Zeros', 'Ones', 'Eye', 'Unit', 'Uniform'})))
+    if not q:
+        # order 4: vector-type trains (column dims 1) and operators with row dims 2
+        v4 = dict(base, MaxD=4, DimsC={1}, RanksS={1, 2})
+        out.append(dict(name='unary4', constants=dict(v4, Scenarios={'single'}, Ops=UNARY, Lean=True,
+                                                      KindPairs={('complex', 'complex')})))
+        out.append(dict(name='binary4', constants=dict(v4, Scenarios={'same'}, Ops={'Add', 'Sub'}, KindPairs={('complex', 'real')})))
+        out.append(dict(name='mm4', constants=dict(base, MaxD=4, DimsR={2}, DimsC={1, 2}, RanksS={1, 2}, Scenarios={'chain'},
+                                                   Ops={'MatMul'}, KindPairs={('complex', 'real')})))
+        out.append(dict(name='unary_s2', constants=dict(base, RanksS={1, 2}, Seeds={2, 3}, Scenarios={'single'}, Ops=UNARY,
+                                                        KindPairs={('complex', 'complex')})))
     return out
 
 
